@@ -571,6 +571,20 @@ func RunJob(job *Job, verbose bool) (res *Result) {
 			if err := x.failAll(); err != nil {
 				return herr("%v", err)
 			}
+		} else if strings.HasPrefix(job.Op, "W:") || strings.HasPrefix(job.Op, "WWO:") {
+			// C10: "counts applied writes exactly" - every single failing call of a write: a write that reported failure
+			// has not moved the counter (only the counter verdicts belong to C10; the rest is C08's business)
+			before := len(x.res.Findings)
+			if err := x.failAll(); err != nil {
+				return herr("%v", err)
+			}
+			kept := x.res.Findings[:before]
+			for _, f := range x.res.Findings[before:] {
+				if strings.Contains(f.Oracle, "revision-counter") {
+					kept = append(kept, f)
+				}
+			}
+			x.res.Findings = kept
 		}
 	case "crash":
 		if job.K < 0 || job.K > n {
